@@ -407,6 +407,8 @@ pub trait QT: Send + Sync + 'static + Sized {
     fn from_trait(p: Self::P) -> Self;
     fn i_clear(&mut self);
     fn i_neg(&mut self);
+    fn into_posit_by_ref(&self) -> Self::P;
+    fn into_posit_by_value(self) -> Self::P;
     fn i_into_two(self) -> (Self::P, Self::P);
     fn i_into_three(self) -> (Self::P, Self::P, Self::P);
     // accumulate spellings
@@ -476,6 +478,12 @@ macro_rules! impl_qt {
             }
             fn i_neg(&mut self) {
                 <$Q>::neg(self)
+            }
+            fn into_posit_by_ref(&self) -> $P {
+                <$P as From<&$Q>>::from(self)
+            }
+            fn into_posit_by_value(self) -> $P {
+                <$P as From<$Q>>::from(self)
             }
             fn i_into_two(self) -> ($P, $P) {
                 <$Q>::into_two_posits(self)
